@@ -1121,12 +1121,13 @@ package anytype
 //@   assigns  cell(line)
 //@   panics_iff false
 //@   ensures  exclusive: (result2 != nil && result0 == nil && result1 == 0) || (result2 == nil && ISKIND(result0) && okVal(result0) && fresh(REFOF(result0)) && plain(REFOF(result0)) && 0 <= result1 && result1 < n && json[result1] == CLOSECH)
-//@   ensures  line-bound: result2 == nil ==> L0 <= deref(line) && deref(line) <= L0 + result1 [C20]
+//@   ensures  line-counted: result2 == nil ==> deref(line) == L0 + nlcount(json, 0, result1 + 1) [C20]
+//@   ensures  error-line: result2 != nil ==> errLine(result2) == 0 - 1 || (exists k int :: 0 <= k && k < n && json[k] != '\n' && errLine(result2) == L0 + nlcount(json, 0, k)) [C20]
 //@   loop 1
 //@     invariant range: 0 <= i && i <= n
 //@     invariant start: (state == 0) == (i == 0)
 //@     invariant built: state != 0 ==> ISKIND(CVAR) && okVal(CVAR) && fresh(REFOF(CVAR)) && plain(REFOF(CVAR))
-//@     invariant line-bound: L0 <= deref(line) && deref(line) <= L0 + i [C20]
+//@     invariant line-counted: deref(line) == L0 + nlcount(json, 0, i) [C20]
 //@     decreases n - i
 //@ end
 //@ instantiate parse-machine(parseList, vlref, ']', isVList, list)
@@ -1155,6 +1156,7 @@ package anytype
 //@   assigns  nothing
 //@   panics_iff false
 //@   ensures  exclusive: (result1 != nil && result0 == nil) || (result1 == nil && ISKIND(result0) && okVal(result0) && fresh(REFOF(result0)))
+//@   ensures  error-line: result1 != nil ==> errLine(result1) == 0 - 1 || (exists k int :: 0 <= k && k < len(json) && json[k] != '\n' && errLine(result1) == 1 + nlcount(json, 0, k)) [C20]
 //@ end
 //@ instantiate parse-entry(ParseList, vlref, isVList)
 //@ instantiate parse-entry(ParseObject, voref, isVObj)
